@@ -10,7 +10,7 @@ ID = 'C14'
 LEVEL = 'exploration'
 RULE = ('case = header program: object kind (Response / HTTPResponse / HTTPError built directly, or app.response / returned HTTPResponse '
         'through Ombott.__call__), status from {200,201,204,206,304,404,500} set before or after, 1-6 operations (entry point in '
-        '{headers[k]=v, append, setdefault, content_type=, content_length=, expires=, constructor headers dict / pair list / keyword}, '
+        '{headers[k]=v, append, setdefault, content_type=, content_length=, expires=, constructor headers dict / pair list / keyword / HeaderDict instance filled through its own constructor or update(); values appended to a COPY of the header dict must not be emitted}, '
         'canonical-case name incl. every entity header of the 204/304 blacklists, value). Values: clean text (ASCII, Latin-1, BMP, astral), '
         'text with CR / LF / NUL injected at start, middle, end (incl. a single trailing LF, CRLF, LFLF), other control characters, int, float, '
         'bool, None, bytes, list, tuple, dict. Oracle vs a model (name -> list of texts): a value whose text has CR/LF/NUL must raise and nothing '
@@ -64,8 +64,8 @@ VALUE = st.one_of(
 _ctext = st.one_of(st.sampled_from(['v', 'a b', 'a;b', 'a,b', 'é', 'a\\b', '', 'abc\r\nX-Injected:1', 'a\rb', 'a\nb', 'a\0b', '\r\n', 'x\r\n y', 'Set-Cookie:\nz=1', '\x7f', '\x1f']),
                    st.text(st.characters(max_codepoint=255), max_size=10))
 COOKIE_VALUE = st.builds(lambda t, q: [t, '"' + t + '"', '"' + t, t + '"', '""' + t + '""', "'" + t + "'"][q], _ctext, st.integers(0, 5))
-ENTRY = st.sampled_from(['setitem', 'setitem', 'append', 'append', 'append', 'setdefault', 'content_type', 'content_length', 'expires'])
-CTOR = st.sampled_from(['ctor_dict', 'ctor_pairs', 'ctor_kw'])
+ENTRY = st.sampled_from(['setitem', 'setitem', 'append', 'append', 'append', 'setdefault', 'content_type', 'content_length', 'expires', 'copy_then_append'])
+CTOR = st.sampled_from(['ctor_dict', 'ctor_pairs', 'ctor_kw', 'ctor_hd'])
 
 
 @st.composite
@@ -113,6 +113,8 @@ class Model:
 
     def apply(self, entry, name, v, raised, exc):
         """Update the model with the observed outcome; raise CheckFailure if the outcome itself is wrong."""
+        if entry == 'copy_then_append':
+            return          # whatever happened to the copy (accepted or refused), the response's own headers are as before
         if entry == 'set_cookie':
             # not one of the single-value setters: it may accept (and escape) or reject; only what is EMITTED under Set-Cookie is judged
             if not raised:
@@ -181,6 +183,11 @@ def _do(obj, entry, name, v):
         obj.expires = val
     elif entry == 'set_cookie':
         obj.set_cookie(name, val)
+    elif entry == 'copy_then_append':
+        # a copy of the header dict is taken and a value appended to THE COPY: the response itself must not emit it
+        c = obj.headers.copy()
+        c.append(name, val)
+        c[name + '-Copy'] = 'x'
     else:
         raise AssertionError(entry)
 
@@ -220,6 +227,26 @@ def _build(case, model, factory_kind):
                 lastkw[n] = v
         eff += [('ctor_kw', n, lastkw[n]) for n in lastkw]
         headers = hdr_dict if hdr_dict else (hdr_pairs if use_pairs else None)
+        hd_ops = [(n, v) for e, n, v in ctor_ops if e == 'ctor_hd']
+        if hd_ops and factory_kind != 'HTTPError':
+            # headers handed over as a HeaderDict instance that was filled through its own constructor / update() (paths that validate nothing):
+            # the response constructor may refuse it or take it over, but nothing with CR / LF / NUL may be emitted
+            from ombott.common_helpers import HeaderDict
+            hd = HeaderDict({hd_ops[0][0]: _mk(hd_ops[0][1])})
+            for n, v in hd_ops[1:]:
+                hd.update({n: _mk(v)})
+            try:
+                obj = ombott.HTTPResponse(b'body', status if case['status_first'] else None, hd, **kw)
+            except Exception:
+                for n, v in hd_ops:
+                    if _has_ctl(_text(v)):
+                        model.rejected.append(_text(v))
+                return None, rest
+            model.lenient = True
+            for n, v in hd_ops:
+                if _has_ctl(_text(v)):
+                    model.rejected.append(_text(v))
+            return obj, rest
         must_raise = any(_simple(v) and _has_ctl(_text(v)) for e, n, v in eff)
         try:
             if factory_kind == 'HTTPError':
@@ -314,7 +341,11 @@ def check_case(ctx, case):
             _run_ops(obj, rest, model)
             if not case['status_first'] or kind == 'Response':
                 obj.status = status
-            _judge(obj.headerlist, model, status, f'{kind}.headerlist')
+            try:
+                hl = obj.headerlist
+            except Exception as e:
+                raise CheckFailure(f'{kind}.headerlist raised {type(e).__name__}: {e} after the operations {case["ops"]!r} were accepted')
+            _judge(hl, model, status, f'{kind}.headerlist')
     else:
         app = ombott.Ombott()
         box = {}
@@ -460,6 +491,16 @@ def run(ctx):
                     ctx.guarded(check_case, {'kind': kind, 'status': 200, 'status_first': True,
                                              'ops': [['setitem', 'X-Test', ['str', 'v']], ['set_cookie', 'c', ['str', q % s]]]})
         ctx.count('cookie_injection_grid')
+        for sh in shapes[:8] + ['clean']:
+            for kind in ('HTTPResponse', 'wsgi_returned', 'wsgi_raised'):
+                ctx.guarded(check_case, {'kind': kind, 'status': 200, 'status_first': True, 'ops': [['ctor_hd', 'X-Test', ['str', sh]], ['append', 'X-Other', ['str', 'v']]]})
+                ctx.guarded(check_case, {'kind': kind, 'status': 200, 'status_first': True, 'ops': [['ctor_hd', 'X-Other', ['str', 'v']], ['ctor_hd', 'X-Test', ['str', sh]]]})
+        # a value appended to a COPY of the header dict (of a single-, two- and three-valued header) never shows up in the response
+        for nvals in (1, 2, 3):
+            for kind in ('Response', 'HTTPResponse', 'wsgi_response', 'wsgi_returned'):
+                ops = [['append', 'Vary', ['str', 'v%d' % i]] for i in range(nvals)] + [['copy_then_append', 'Vary', ['str', 'only-on-the-copy']], ['append', 'Vary', ['str', 'last']]]
+                ctx.guarded(check_case, {'kind': kind, 'status': 200, 'status_first': True, 'ops': ops})
+        ctx.count('headerdict_instance_and_copy_grid')
     n = 4000 if ctx.tier == 'quick' else 40000
     ctx.hyp(case_st(), check_case, n)
 
